@@ -60,7 +60,7 @@ fn tables_of(st: &Stmt) -> Vec<String> {
     match st {
         Stmt::Create(t) => vec![t.name.clone()],
         Stmt::Drop(n) => vec![n.clone()],
-        Stmt::Insert(t, ..) | Stmt::Update(t, ..) | Stmt::Delete(t, ..) => vec![t.clone()],
+        Stmt::Insert(t, ..) | Stmt::Update(t, ..) | Stmt::Delete(t, ..) | Stmt::DropColumn(t, _) | Stmt::CreateIndex(_, t, _) => vec![t.clone()],
         Stmt::Select(s) => s.from.iter().map(|f| f.table.clone()).collect(),
     }
 }
